@@ -335,7 +335,10 @@ impl<R: AsyncBufRead + Unpin> NsReader<R> {
     ) -> Result<Span> {
         // According to the https://www.w3.org/TR/xml11/#dt-etag, end name should
         // match literally the start name. See `Config::check_end_names` documentation
-        self.reader.read_to_end_into_async(end, buf).await
+        let span = self.reader.read_to_end_into_async(end, buf).await?;
+        // The skipped element has ended, so its namespace declarations are out of scope
+        self.pop_skipped();
+        Ok(span)
     }
 
     /// An asynchronous version of [`read_resolved_event_into()`]. Reads the next
